@@ -373,8 +373,8 @@ fn gen_case(seed: u64, i: usize) -> Case {
         let pos = g.rng.below(n + 1);
         // the character now at that position (Exec's resource texts are a fixed pattern): near-miss replacements
         // (other case, other whitespace) as well as unrelated, multi-byte and identical characters
-        let orig = if pos % 5 == 4 { ' ' } else { (b'a' + (pos % 23) as u8) as char };
-        let near = if orig == ' ' { '\t' } else { orig.to_ascii_uppercase() };
+        let orig = crate::fam::store::pattern_char(pos);
+        let near = if orig == ' ' { '\t' } else if orig == '\u{e9}' { '\u{c9}' } else { orig.to_ascii_uppercase() };
         let c = *g.rng.pick(&['X', 'a', ' ', '\u{e9}', '\u{1F600}', near, near, orig, '\n']);
         Some((rid, kind, pos, c))
     };
